@@ -17,8 +17,14 @@ INF = None  # upper bound "float('inf')"
 class Frag:
     """collects the reasons why a run is fragile"""
 
-    def __init__(self):
+    def __init__(self, track_float=False):
         self.why = []
+        self.events = {}            # rare internal events of the run (event-directed generation, evidence histogram)
+        self.track_float = track_float
+        self.last_float_obj = None
+
+    def ev(self, name):
+        self.events[name] = self.events.get(name, 0) + 1
 
     def near(self, x, thr, what):
         if abs(x - thr) < MARGIN:
@@ -69,14 +75,15 @@ def _phase2(mat, basis, m, eps, max_iter):
     return "MAX_ITER", max_iter
 
 
-def solve_lp(c, A, b, minimize, eps, max_iter):
-    """-> (status, solution, objective, iterations)"""
+def solve_lp(c, A, b, minimize, eps, max_iter, num=F):
+    """-> (status, solution, objective, iterations).  num=F: exact; num=float: the same operations in doubles (used only to
+    see where round-off noise appears)"""
     m, n = len(b), len(c)
     w = list(c) if minimize else [-v for v in c]
     mat = []
     for i in range(m):
-        mat.append([F(v) for v in A[i]] + [F(1 if k == i else 0) for k in range(m)] + [F(b[i])])
-    mat.append([F(v) for v in w] + [F(0)] * (m + 1))
+        mat.append([num(v) for v in A[i]] + [num(1 if k == i else 0) for k in range(m)] + [num(b[i])])
+    mat.append([num(v) for v in w] + [num(0)] * (m + 1))
     basis = list(range(n, n + m))
     iters = 0
     if any(mat[i][-1] < -eps for i in range(m)):
@@ -87,20 +94,20 @@ def solve_lp(c, A, b, minimize, eps, max_iter):
                 mat[i] = [-v for v in mat[i]]
                 art = n + m + len(arts)
                 for k in range(len(mat)):
-                    mat[k].insert(len(mat[k]) - 1, F(0))
-                mat[i][-2] = F(1)
+                    mat[k].insert(len(mat[k]) - 1, num(0))
+                mat[i][-2] = num(1)
                 basis[i] = art
                 arts.append(art)
         ncols = len(mat[0])
-        mat[-1] = [F(0)] * ncols
+        mat[-1] = [num(0)] * ncols
         for col in arts:
-            mat[-1][col] = F(1)
+            mat[-1][col] = num(1)
         for i in range(m):
             if basis[i] in arts:
                 mat[-1] = [a - p for a, p in zip(mat[-1], mat[i])]
         st, iters = _phase2(mat, basis, m, eps, max_iter)
         if mat[-1][-1] < -eps:
-            return ("MAX_ITER" if st == "MAX_ITER" else "INFEASIBLE"), [F(0)] * n, None, iters
+            return ("MAX_ITER" if st == "MAX_ITER" else "INFEASIBLE"), [num(0)] * n, None, iters
         for i in range(m):
             if basis[i] in arts:
                 for j in range(ncols - 1 - len(arts)):
@@ -121,7 +128,7 @@ def solve_lp(c, A, b, minimize, eps, max_iter):
                     mat[-1] = [a - cost * p for a, p in zip(mat[-1], mat[i])]
         max_iter -= iters
     st, it2 = _phase2(mat, basis, m, eps, max(max_iter, 0))
-    sol = [F(0)] * n
+    sol = [num(0)] * n
     for i in range(m):
         if basis[i] < n:
             sol[basis[i]] = mat[i][-1]
@@ -153,13 +160,16 @@ def solve_node(c, A, b, lower, upper, minimize, eps, max_iter, fr):
         if hi is not INF:
             fr.near(hi, lo - eps, "node: hi < lo-eps")
             if hi < lo - eps:
+                fr.ev("node_box_empty")
                 return "INFEASIBLE", None, None
             fr.near(hi - lo, eps, "node: hi-lo < eps")
         if hi is not INF and hi - lo < eps:
             fixed[j] = lo
         else:
             free.append(j)
+    fr.last_float_obj = None
     if not free:
+        fr.ev("node_all_fixed")
         sol = [fixed.get(j, F(0)) for j in range(n)]
         obj = sum((c[j] * fixed[j] for j in fixed), F(0))
         for i, row in enumerate(A):
@@ -189,6 +199,17 @@ def solve_node(c, A, b, lower, upper, minimize, eps, max_iter, fr):
     c_red = [c[j] for j in free]
     fobj = sum((c[j] * fixed[j] for j in fixed), F(0))
     st, x, z, _ = solve_lp(c_red, A_red, b_red, minimize, eps, max_iter)
+    fr.last_float_obj = None
+    if fr.track_float and st == "OPTIMAL":
+        stf, _, zf, _ = solve_lp(c_red, A_red, b_red, minimize, float(eps), max_iter, num=float)
+        if stf == "OPTIMAL":
+            fr.last_float_obj = zf + float(fobj)
+    if st == "INFEASIBLE":
+        fr.ev("node_lp_infeasible")
+    if st == "MAX_ITER":
+        fr.ev("node_lp_max_iter")
+    if any(lower[j] > eps for j in free):
+        fr.ev("lower_bound_row")
     if st != "OPTIMAL":
         return st, None, None
     full = [F(0)] * n
@@ -319,9 +340,10 @@ def round_binary(lpsol, ints, c, A, b, minimize, eps, fr):
 
 
 def solve_milp(c, A, b, ints, minimize=True, eps=F(1, 10**6), max_iter=10000, max_nodes=100000, gap_tol=F(1, 10**6),
-               warm_start=None, solution_limit=1, heuristics=True, lns_iterations=0, lns_answer=None):
+               warm_start=None, solution_limit=1, heuristics=True, lns_iterations=0, lns_answer=None, track_float=False):
     """-> (result dict, Frag).  `ints` sorted, duplicate-free.  `lns_answer`: what _lns_improve returned (or None)."""
-    fr = Frag()
+    fr = Frag(track_float)
+    eps = F(eps)
     c = [F(v) for v in c]
     A = [[F(v) for v in r] for r in A]
     b = [F(v) for v in b]
@@ -346,19 +368,27 @@ def solve_milp(c, A, b, ints, minimize=True, eps=F(1, 10**6), max_iter=10000, ma
         if len(ws) == n and is_feasible(ws, A, b, ints, eps, fr):
             best = (ws, dot(c, ws))
             allsol.append(ws)
+            fr.ev("warm_accepted")
+        else:
+            fr.ev("warm_rejected")
     fv = most_fractional(rsol, ints, eps, fr)
     if fv is None:
+        fr.ev("root_integral")
         return res("OPTIMAL", rsol, robj, 1), fr
     for j in ints:
         fr.near(rsol[j], -eps, "looks_binary lo")
         fr.near(rsol[j], 1 + eps, "looks_binary hi")
     looks = all(-eps <= rsol[j] <= 1 + eps for j in ints)
     lower, upper = [F(0)] * n, [INF] * n
+    if looks:
+        fr.ev("looks_binary")
     if looks and detect_binary(A, b, ints, n, eps, fr):
+        fr.ev("tighten_binary")
         for j in ints:
             upper[j] = F(1)
     if heuristics and looks and best is None:
         rd = round_binary(rsol, ints, c, A, b, minimize, eps, fr)
+        fr.ev("rounded_accepted" if rd is not None else "rounded_none")
         if rd is not None:
             best = (rd, dot(c, rd))
             allsol.append(rd)
@@ -372,6 +402,7 @@ def solve_milp(c, A, b, ints, minimize=True, eps=F(1, 10**6), max_iter=10000, ma
             elif io != best[1]:
                 fr.near(io, best[1], "lns: objective comparison")
             if (minimize and io < best[1]) or (not minimize and io > best[1]):
+                fr.ev("lns_improved")
                 best = (imp, io)
                 for s in allsol:
                     if s != imp and all(abs(p - q) < MARGIN for p, q in zip(s, imp)):
@@ -389,6 +420,7 @@ def solve_milp(c, A, b, ints, minimize=True, eps=F(1, 10**6), max_iter=10000, ma
         if best is not None:
             fr.near(nb, sign * best[1] - eps, "prune 1")
             if nb >= sign * best[1] - eps:
+                fr.ev("prune1_bound_equals_incumbent" if nb == sign * best[1] else "prune1")
                 continue
         st, sol, obj = solve_node(c, A, b, lo, up, minimize, eps, max_iter, fr)
         nodes += 1
@@ -396,9 +428,15 @@ def solve_milp(c, A, b, ints, minimize=True, eps=F(1, 10**6), max_iter=10000, ma
         if st != "OPTIMAL":
             hit = hit or st == "MAX_ITER"
             continue
+        fobj_float = fr.last_float_obj
+        if fobj_float is not None and obj.denominator == 1 and fobj_float != float(obj):
+            # the exact LP value is an integer, the same pivots in doubles give a neighbour of it
+            noise_up = sign * fobj_float > sign * float(obj)
+            fr.ev("int_lp_value_float_noise_" + ("up" if noise_up else "down") + ("_max" if not minimize else "_min"))
         if best is not None:
             fr.near(sign * obj, sign * best[1] - eps, "prune 2")
             if sign * obj >= sign * best[1] - eps:
+                fr.ev("prune2_bound_equals_incumbent" if obj == best[1] else "prune2")
                 continue
         fv = most_fractional(sol, ints, eps, fr)
         if fv is None:
@@ -409,11 +447,19 @@ def solve_milp(c, A, b, ints, minimize=True, eps=F(1, 10**6), max_iter=10000, ma
             if solution_limit > 1 and sol not in allsol:
                 allsol.append(sol)
                 if len(allsol) >= solution_limit:
+                    fr.ev("solution_limit_exit")
                     bs, bo = (best if (best is not None and len(best[0]) > 0) else (sol, obj))
                     return res("FEASIBLE", bs, bo, nodes, list(allsol)), fr
             if best is None or sign * obj < sign * best[1]:
+                fr.ev("incumbent_from_tree" if best is None else "incumbent_improved")
                 best = (sol, obj)
                 bound = sign * nb
+                if obj != 0 and obj == -bound:
+                    fr.ev("incumbent_equals_minus_bound" + ("_max" if not minimize else "_min"))
+                if obj * bound < 0:
+                    fr.ev("incumbent_and_bound_opposite_signs" + ("_max" if not minimize else "_min"))
+                if obj == 0 or bound == 0:
+                    fr.ev("incumbent_or_bound_zero")
                 if abs(obj) < F(1, 10**10):
                     gap = abs(obj - bound)
                 else:
@@ -421,10 +467,16 @@ def solve_milp(c, A, b, ints, minimize=True, eps=F(1, 10**6), max_iter=10000, ma
                 fr.near(abs(obj), F(1, 10**10), "gap: |best| < 1e-10")
                 fr.near(gap, gap_tol, "gap < gap_tol")
                 if gap < gap_tol and solution_limit == 1 and not hit:
+                    fr.ev("gap_exit_open_nodes" if tree else "gap_exit_tree_empty")
                     return res("OPTIMAL", sol, obj, nodes), fr
             continue
         val = sol[fv]
         cb = sign * obj
+        fr.ev("branch")
+        if obj.denominator == 1:
+            fr.ev("int_lp_value_fractional_point" + ("" if all(v.denominator & (v.denominator - 1) == 0 for v in sol) else "_nondyadic"))
+        if val > 1:
+            fr.ev("branch_value_above_1")
         for (kb, kc, kn) in tree:
             if kn[3] != nid and abs(kb - cb) < MARGIN:
                 fr.tie("heap: equal bounds from different parents")
@@ -439,6 +491,10 @@ def solve_milp(c, A, b, ints, minimize=True, eps=F(1, 10**6), max_iter=10000, ma
                 k += 1
             tree.insert(k, (cb, counter, (l2, u2, depth + 1, nid)))
             counter += 1
+    if tree:
+        fr.ev("node_limit_open_nodes")
+    if hit:
+        fr.ev("lp_limit_hit")
     if best is None:
         return res("MAX_ITER" if (hit or tree) else "INFEASIBLE", None, worst, nodes), fr
     status = "OPTIMAL" if not tree and not hit else "FEASIBLE"
